@@ -66,7 +66,7 @@ def run(ctx):
                 'channel slices a:b with negative/open/out-of-range bounds, nested up to depth 4, combined with time slices; '
                 'Stokes component selection; all a:b for nchan <= 9 exhaustively in the thorough tier. '
                 'non-trivial = nchan >= 2; distinct by (class, nchan, align, cf, bw, slices).')
-    ctx.trusted = ['Coq 8.16.1 kernel; vm_compute', 'translator T2 (align table, label formula text)',
+    ctx.trusted = ['translator T4 translate/py_ledger2coq.py (label formula, band edges, _freq_slice as exact-rational terms)', 'Coq 8.16.1 kernel; vm_compute', 'translator T2 (align table, label formula text)',
                    'numpy float64 label arithmetic within 2^-49*(|cf|+n*bw) of exact (measured by the diff)',
                    'Lib/PySlice.v = CPython slice.indices']
     ctx.assumptions = ['|cf|/bw <= 2^30 (float64 labels resolve the channel spacing)']
